@@ -329,6 +329,39 @@ func main() {
 		e := ref.ZnMul(u1, sv)
 		add(vcase{q, nil, ref.B32(e), r, sv, "chosen u2 on a GLV rounding boundary", false})
 	}
+	// (b-near) everything is consistent except the final comparison by ONE LIMB: R is chosen, r' is a limb near miss of
+	// x(R) mod n (mc.LimbNearMisses: one stored or canonical limb off, or two limbs whose differences cancel under ADD
+	// or XOR), and Q = r'^-1 (s R - e G). The verifier recomputes exactly R and must find x(R) mod n != r'.
+	{
+		nn := 0
+		for pi, pv := range pts {
+			if pv.P.Inf || pi%2 == 1 && !th {
+				continue
+			}
+			rp := pv.P
+			xr := ref.ModN(rp.X)
+			dg := baseDigests[pi%len(baseDigests)]
+			e, _ := ref.DigestToE(dg)
+			s := svals[pi%2]
+			for _, nm := range mc.LimbNearMisses(xr, ref.N) {
+				r2 := nm.V
+				if r2.Sign() == 0 {
+					continue
+				}
+				ri := new(big.Int).ModInverse(r2, ref.N)
+				q := rp.Mul(ref.ZnMul(s, ri)).Sub(ref.BaseMul(ref.ZnMul(ref.ModN(e), ri)))
+				if q.Inf {
+					continue
+				}
+				add(vcase{q, nil, dg, r2, s, "r is a limb near miss of x(R) mod n", false})
+				nn++
+			}
+			if nn > 400 && !th {
+				break
+			}
+		}
+		R.Bound("near_miss_r_cases", nn)
+	}
 	// (b'') wrapped second candidate: x' = r + n - p (what a field addition of r and n gives when r + n >= p).
 	// If x' is an x-coordinate, the key Q' = r^-1 (s R' - e G) built from R' = lift(x') "verifies" only for an
 	// implementation that forgets that x' is not congruent to r mod n. Must be rejected for ids 2 and 3.
